@@ -298,7 +298,8 @@ def _run_props(res, ctx):
         from bandit.core import config as b_config, manager as b_manager
         base = os.path.join(scratch.root, "relroot")
         files = {"_vendor/lib.py": "import pickle\nassert x  # nosec\n", "__pypackages__/a/x.py": "import subprocess\nsubprocess.Popen(c, shell=True)\n",
-                 "app/main.py": "password = 'pw'\neval(x)\n", "_totals/odd.py": "exec(c)\n", ".hidden/h.py": "import telnetlib\n", "9lives/n.py": "assert y\n"}
+                 "app/main.py": "password = 'pw'\neval(x)\n", "_totals/odd.py": "exec(c)\n", ".hidden/h.py": "import telnetlib\n", "9lives/n.py": "assert y\n",
+                 "app/sub/worker.py": "import pickle  # nosec\nimport subprocess\nsubprocess.Popen(c, shell=True)  # nosec B602\nassert w\n", "app/sub/deep/d.py": "exec(z)\n"}
         for rel, src in files.items():
             os.makedirs(os.path.dirname(os.path.join(base, rel)), exist_ok=True)
             with open(os.path.join(base, rel), "w") as f:
@@ -306,7 +307,10 @@ def _run_props(res, ctx):
         old = os.getcwd()
         try:
             os.chdir(base)
-            for targets in (["_vendor", "app"], ["__pypackages__", "_totals", ".hidden", "9lives", "app"], ["."], ["_vendor/lib.py", "app/main.py"]):
+            # … and overlapping / repeated targets: a path reached through two targets is one file with one metrics block, and the counts are those of the findings
+            # the run produced (seeded change C12-m16 kept target order instead of a sorted set: the file was scanned twice, its block overwritten, the counts halved)
+            for targets in (["_vendor", "app"], ["__pypackages__", "_totals", ".hidden", "9lives", "app"], ["."], ["_vendor/lib.py", "app/main.py"],
+                            ["app", "app/sub"], ["app/sub", "app", "app/sub/deep"], ["app", "app"], ["app/main.py", "app/main.py", "_vendor/lib.py"]):
                 mgr = b_manager.BanditManager(b_config.BanditConfig(), "file")
                 mgr.discover_files(list(targets), True, "")
                 mgr.run_tests()
@@ -318,6 +322,8 @@ def _run_props(res, ctx):
                 if set(blocks) != set(mgr.files_list) or "_totals" not in data:
                     res.violation("a scanned file has no metrics block (or the totals block is missing)", {"targets": targets, "files": mgr.files_list, "blocks": sorted(data)})
                     continue
+                if len(set(mgr.files_list)) != len(mgr.files_list):
+                    res.violation("a file reached through two targets is listed (and scanned) twice", {"targets": targets, "files": list(mgr.files_list)})
                 tot = data["_totals"]
                 for k in sorted(set(tot) | {k for b in blocks.values() for k in b}):
                     ssum = sum(b.get(k, 0) for b in blocks.values())
